@@ -75,15 +75,16 @@ def particle_best(args):
         p.features['best_cost'] = old
         p.features['best_vector'] = oldv
         alg.update_particle_best([p])
-        replaced = p.features['best_cost'] is new
-        kept = p.features['best_cost'] is old
-        ctx.output('replaced', replaced)
-        ctx.check('best-is-old-or-new', not (replaced or kept))
+        bc, bv = p.features['best_cost'], p.features['best_vector']
+        ctx.output('best_is_new_object', bc is new)
+        same = lambda a, b: ec.same_vec(list(a), list(b)) if (a is not None and b is not None and len(a) == len(b)) else False
         old_dominates_new = dominates(old, new)
-        ctx.check('replaced-unless-old-best-dominates-new', Not(Iff(replaced, Not(old_dominates_new))))
-        ctx.check('never-replaced-by-a-dominated-position', And(replaced, old_dominates_new))
+        # by VALUE (a copying implementation is fine): replaced unless the old best dominates the new position
+        ctx.check('replaced-unless-old-best-dominates-new', And(Not(old_dominates_new), Not(same(bc, new))))
+        ctx.check('kept-when-old-best-dominates-new', And(old_dominates_new, Not(same(bc, old))))
+        ctx.check('never-replaced-by-a-dominated-position', And(old_dominates_new, same(bc, new), Not(same(new, old))))
         ctx.check('best-vector-follows-best-cost',
-                  (p.features['best_vector'] is not p.vector) if replaced else (p.features['best_vector'] is not oldv))
+                  Or(And(Not(old_dominates_new), Not(same(bv, p.vector))), And(old_dominates_new, Not(same(bv, oldv)))))
     return common.merge_stats(body, st)
 
 
